@@ -211,9 +211,84 @@ Definition ka_react (me : nat) (o : ka_out) (late_cancel disconnecting : bool) (
 Definition rc_keepalive (I T : N) (s : list ping_outcome) : option ka_out :=
   if 0 <? I then Some (keepalive I T s) else None.
 
+(* Which context the keep-alive context of a connection is derived from (reconnclient.go:82-111).
+   The loop starts with the context the caller passed to Connect; the first successful CONNECT
+   replaces it by context.Background() (doneOnce, :97-101) BEFORE ctxKeepAlive is created from it
+   (:111), on the first connection as on every later one. *)
+Inductive loop_ctx := CtxCaller | CtxBackground.
+Definition after_connect_success (c : loop_ctx) : loop_ctx := CtxBackground.      (* :97-101 *)
+Definition ka_parent_ctx (c : loop_ctx) : loop_ctx := after_connect_success c.    (* :111 *)
+
+(* The script the keep-alive of a connection runs against: the peer decides the outcomes; the
+   caller may end the context it gave to Connect before any ping ([caller_cancel j] = it ends
+   before ping j); that reaches the keep-alive only if its context descends from the caller's. *)
+Fixpoint conn_script_from (lc : loop_ctx) (caller_cancel : nat -> option ctx_err) (j : nat)
+                          (peer : list ping_outcome) : list ping_env :=
+  match peer with
+  | [] => []
+  | o :: r =>
+      let e := env_of o in
+      (match lc with
+       | CtxCaller => mk_env (or_else (caller_cancel j) (pe_before e)) (pe_beh e) (pe_during e)
+       | CtxBackground => e
+       end) :: conn_script_from lc caller_cancel (S j) r
+  end.
+
+Definition rc_conn_keepalive (I T : N) (caller_cancel : nat -> option ctx_err) (peer : list ping_outcome)
+  : option ka_out :=
+  if 0 <? I then Some (ka_env I T (conn_script_from (ka_parent_ctx CtxCaller) caller_cancel O peer)) else None.
+
 (* The reconnect loop waiting on the connection (reconnclient.go:135-149).  A closed transport
    ends the reader, which closes Done(); the error stored first is the one Err() reports. *)
 Inductive loop_action := LWait | LRedial | LStop.
 Definition loop_react (me : nat) (st : clients) : loop_action :=
   if cs_closed (st me) then match cs_err (st me) with Some _ => LRedial | None => LStop end
   else LWait.
+
+(* ---------- the PINGRESP slot of one connection (pingreq.go:31-34,45-51, serve.go:177-185) ----------
+   Every Ping installs a FRESH one-slot channel before it writes its PINGREQ; the reader offers
+   each PINGRESP to the channel installed at that moment with a non-blocking send. *)
+Inductive slot_ev :=
+| SReq        (* a Ping starts: new channel, PINGREQ written, the Ping waits *)
+| SResp       (* the reader receives a PINGRESP *)
+| SGiveUp.    (* the waiting Ping's context is done *)
+
+Inductive slot_res := SAnswered | SGaveUp.
+
+Record slot_st := mk_slot {
+  sl_chan : option bool;   (* None: no channel yet (nil: a send is never ready); Some full *)
+  sl_wait : bool           (* a Ping is waiting on the channel *)
+}.
+Definition slot_init : slot_st := mk_slot None false.
+
+Definition slot_step (st : slot_st) (e : slot_ev) : slot_st * list slot_res :=
+  match e with
+  | SReq => (mk_slot (Some false) true, [])
+  | SResp =>
+      match sl_chan st with
+      | None => (st, [])                                   (* dropped *)
+      | Some true => (st, [])                              (* buffer full: dropped *)
+      | Some false =>
+          if sl_wait st then (mk_slot (Some false) false, [SAnswered])   (* taken by the waiting Ping *)
+          else (mk_slot (Some true) false, [])             (* sits in a channel nobody reads any more *)
+      end
+  | SGiveUp => if sl_wait st then (mk_slot (sl_chan st) false, [SGaveUp]) else (st, [])
+  end.
+
+Fixpoint slot_run (st : slot_st) (es : list slot_ev) : list slot_res :=
+  match es with
+  | [] => []
+  | e :: r => let '(st', out) := slot_step st e in out ++ slot_run st' r
+  end.
+
+(* what the peer does around ping j: [u] unsolicited PINGRESPs while no Ping is waiting, then the
+   PINGREQ, then [r] PINGRESPs (r = 0: none, the Ping gives up when its context is done) *)
+Definition ping_events (ur : nat * nat) : list slot_ev :=
+  let '(u, r) := ur in
+  repeat SResp u ++ SReq :: (match r with O => [SGiveUp] | _ => repeat SResp r end).
+
+Definition outcome_of_slot (r : slot_res) : ping_outcome :=
+  match r with SAnswered => Answered 0 | SGaveUp => Never end.
+
+Definition wire_outcomes (urs : list (nat * nat)) : list ping_outcome :=
+  map outcome_of_slot (slot_run slot_init (flat_map ping_events urs)).
